@@ -134,7 +134,7 @@ def check(ck):
         for path in ("", "/", "/a/b", "/tmp/s.sock"):
             for query in ("", "x=1&y=%202"):
                 cases.append((scheme, "h:80", path, query, True))
-    for scheme in ("ftp", "", "ws", "unix+ftp", "unix+", "httpx", "unix+https+x", "file"):
+    for scheme in ("ftp", "", "ws", "unix+ftp", "unix+", "httpx", "unix+https+x", "file", "unix+https"):
         cases.append((scheme, "h", "/p", "", False))
     if ck.tier == "thorough":
         # larger universe: more paths (dots, trailing slash, encoded characters, a path that looks like a query), more queries
@@ -235,3 +235,4 @@ def _run_init(ev, finit, mk, cfgo, urlparse_stub):
     return ev.run(finit, {"uri": shape.K("<uri>"), "transport": shape.K(None), "encoding": shape.K(None), "verbose": shape.K(0),
                           "version": shape.K(None), "headers": shape.K(None), "history": shape.K(None), "config": cfgo,
                           "context": shape.K(None)}, mk)
+    common.check_config_defaults(ck, "C17.1", ("content_type",))
